@@ -114,3 +114,8 @@ Lemma shuffle_num_steps_documented N bs e s (drop : bool) :
         | None => s
         end).
 Proof. unfold Gen_client_datasets.shuffle_num_steps. destruct e, s, drop; reflexivity. Qed.
+
+(* fed_avg.py and tree_util.py contain no construct whose value depends on the interpreter process
+   (hash(), id(), time, uuid, os.environ, random / np.random): fail-closed recogniser *)
+Lemma gen_fedavg_process_independent : Gen_fed_avg.process_independent = true /\ Gen_tree_l2.process_independent = true.
+Proof. split; reflexivity. Qed.
